@@ -368,6 +368,21 @@ structure C14hSt where
   fnR : Reg := { done := [(0, 0)] }        -- possibly-current routine / state function
 deriving Repr
 
+/-- does this invocation qualify for the "moved to a new context" clause? SetContext(ctx ≠ nil, restart = false)
+invoked while exactly one, healthy, instance executes, no other mutating call is in flight and `ctx` has not been
+cancelled by the environment -/
+def movedOf (running : List (Nat × Bool)) (croots seenLive pendMut : List Nat) (a : Nat) (op : Op) : List (Nat × Nat) :=
+  match op, running with
+  | .setContext c false, [(k, false)] =>
+    if c != 0 && !croots.contains c && seenLive.contains k && pendMut.isEmpty then [(a, k)] else []
+  | _, _ => []
+
+/-- such a call returned true while that instance still executes and nothing else is in flight -/
+def expOf (moved : List (Nat × Nat)) (running : List (Nat × Bool)) (pm : List Nat) (a : Nat) (r : Res) : Bool :=
+  match r, moved.find? (·.1 == a) with
+  | .bool true, some p => running.any (·.1 == p.2) && pm.isEmpty
+  | _, _ => false
+
 def Op.quiet : Op → Bool
   | .getState | .waitExited _ => true
   | _ => false
@@ -399,26 +414,20 @@ def monC14h : ObsMonitor Obs C14hSt where
          | none => false)
       if healthy then none
       else some { ms with running := ms.running.map fun p => if p.1 == k then (p.1, true) else p }
-    | .envCancel c => some { ms with croots := c :: ms.croots, expectRun := false }
+    | .envCancel c => some { ms with croots := c :: ms.croots, expectRun := false, moved := [] }
     | .inv a op =>
       if op.quiet then some ms else
       let ms := match op with
         | .setRoutine f => { ms with fnR := ms.fnR.inv (a + 1) f }
         | .setStateRoutine f => { ms with fnR := ms.fnR.inv (a + 1) f }
         | _ => ms
+      -- a SetContext call qualifies only if no other mutating call and no cancellation by the environment overlaps it
       some { ms with running := ms.running.map (fun p => (p.1, true)), pendMut := a :: ms.pendMut,
                      expectRun := false,
-                     moved := (match op, ms.running with
-                               | .setContext c false, [(k, false)] =>
-                                 if c != 0 && !ms.croots.contains c && ms.seenLive.contains k && ms.pendMut.isEmpty
-                                 then (a, k) :: ms.moved else ms.moved
-                               | _, _ => ms.moved) }
+                     moved := movedOf ms.running ms.croots ms.seenLive ms.pendMut a op }
     | .ret a r =>
       let ms := { ms with pendMut := ms.pendMut.filter (· != a), fnR := ms.fnR.ret (a + 1) true }
-      let exp := match r, ms.moved.find? (·.1 == a) with
-        | .bool true, some p => ms.running.any (·.1 == p.2) && ms.pendMut.isEmpty
-        | _, _ => false
-      some { ms with expectRun := ms.expectRun || exp }
+      some { ms with expectRun := ms.expectRun || expOf ms.moved ms.running ms.pendMut a r }
     | .quiesce _ run _ => if ms.expectRun && run.isEmpty then none else some ms
     | _ => some ms
 
@@ -457,6 +466,79 @@ def monC14ha : ObsMonitor Obs C14haSt where
       some { ms with running := ms.running.map (fun p => (p.1, true)), pendMut := a :: ms.pendMut }
     | .ret a _ => some { ms with pendMut := ms.pendMut.filter (· != a) }
     | _ => some ms
+
+/-! ## C14hb — the first two clauses of `monC14h` alone -/
+
+structure C14hbSt where
+  running : List (Nat × Bool) := []
+  pendMut : List Nat := []
+  croots : List Nat := []
+  roots : List (Nat × Nat) := []
+  seenLive : List Nat := []
+  moved : List (Nat × Nat) := []
+  expectRun : Bool := false
+deriving Repr
+
+/-- the healthy-instance clause and the "moved to a new context" clause of `monC14h` alone: when
+SetContext(ctx ≠ nil, restart = false) — overlapped by no other mutating call and no cancellation by the
+environment — returns true while the healthy instance that was executing at its invocation still executes, the
+routine runs again under the new context once that instance has returned: no quiescence line with nothing executing
+may follow before an instance enters, another mutating call is invoked or the environment cancels a context.
+Proved to accept every model trace (`Props.C14hb_obs`). -/
+def monC14hb : ObsMonitor Obs C14hbSt where
+  init := {}
+  step := fun ms o =>
+    match o with
+    | .cbin k _ _ root =>
+      some { ms with running := ms.running ++ [(k, !ms.pendMut.isEmpty)], roots := (k, root) :: ms.roots,
+                     expectRun := false }
+    | .cbout k _ => some { ms with running := ms.running.filter (·.1 != k) }
+    | .probeCtx k false => some { ms with seenLive := k :: ms.seenLive }
+    | .probeCtx k true =>
+      let healthy := ms.running.any (fun p => p.1 == k && !p.2) && ms.seenLive.contains k &&
+        (match ms.roots.find? (·.1 == k) with
+         | some p => !ms.croots.contains p.2
+         | none => false)
+      if healthy then none
+      else some { ms with running := ms.running.map fun p => if p.1 == k then (p.1, true) else p }
+    | .envCancel c => some { ms with croots := c :: ms.croots, expectRun := false, moved := [] }
+    | .inv a op =>
+      if op.quiet then some ms else
+      some { ms with running := ms.running.map (fun p => (p.1, true)), pendMut := a :: ms.pendMut,
+                     expectRun := false,
+                     moved := movedOf ms.running ms.croots ms.seenLive ms.pendMut a op }
+    | .ret a r =>
+      some { ms with pendMut := ms.pendMut.filter (· != a),
+                     expectRun := ms.expectRun || expOf ms.moved ms.running (ms.pendMut.filter (· != a)) a r }
+    | .quiesce _ run _ => if ms.expectRun && run.isEmpty then none else some ms
+    | _ => some ms
+
+/-! ## C14hf — the replaced-record clause of `monC14h` alone -/
+
+structure C14hfSt where
+  fns : List (Nat × Nat) := []             -- entry ↦ function tag
+  fnR : Reg := { done := [(0, 0)] }
+deriving Repr
+
+/-- third clause of `monC14h` alone: an instance seen with a live context runs a possibly-current routine function
+(a record that was replaced is not run again). It is the function part of `monC05l`'s probe clause
+(`ProofsAsm.monC14hf_of_C05l`). -/
+def monC14hf : ObsMonitor Obs C14hfSt where
+  init := {}
+  step := fun ms o =>
+    let ok : Bool := match o with
+      | .probeCtx k false =>
+        (match ms.fns.find? (·.1 == k) with
+         | some p => ms.fnR.vals.contains p.2
+         | none => true)
+      | _ => true
+    if ok then
+      match (monReg fnSpec).step ms.fnR o with
+      | some r => some { fns := (match o with
+                                 | .cbin k f _ _ => (k, f) :: ms.fns
+                                 | _ => ms.fns), fnR := r }
+      | none => none
+    else none
 
 /-! ## C05c — context lineage clause of C05 alone -/
 
